@@ -95,6 +95,28 @@ func (t *Table) ColNames() []string {
 	return out
 }
 
+// DeclaredColNames are all columns of the definition, generated ones included
+// (hidden 2 = VIRTUAL, not stored; hidden 3 = STORED), in definition order.
+func (t *Table) DeclaredColNames() []string {
+	var out []string
+	for _, c := range t.Columns {
+		if c.Hidden != 1 {
+			out = append(out, c.Name)
+		}
+	}
+	return out
+}
+
+// HasVirtualGenerated reports a generated column that is not stored in the row.
+func (t *Table) HasVirtualGenerated() bool {
+	for _, c := range t.Columns {
+		if c.Hidden == 2 {
+			return true
+		}
+	}
+	return false
+}
+
 func (t *Table) ColIndex(name string) int {
 	i := 0
 	for _, c := range t.Columns {
